@@ -36,6 +36,7 @@ type CopyReader struct {
 	writer  *buffer.Writer
 	columns Columns
 	chunk   []byte
+	err     error // error which aborted the copy-in operation, if any
 }
 
 // Columns returns the columns that are currently defined within the copy reader.
@@ -47,6 +48,12 @@ func (r *CopyReader) Columns() Columns {
 // as a byte slice. If the end of the copy-in stream is reached, an io.EOF error
 // is returned.
 func (r *CopyReader) Read() error {
+	// NOTE: once the copy-in operation has been aborted no further messages
+	// should be consumed from the connection.
+	if r.err != nil {
+		return r.err
+	}
+
 reader:
 	for {
 		typed, _, err := r.ReadTypedMsg()
@@ -68,12 +75,18 @@ reader:
 			if err != nil {
 				return err
 			}
-			return ErrorCode(r.writer, newErrClientCopyFailed(desc))
+
+			// NOTE: the copy-in operation has been aborted by the client. The
+			// error is returned to the handler and reported to the client once
+			// the handler returns, ending the command cycle exactly once.
+			r.err = newErrClientCopyFailed(desc)
+			return r.err
 		default:
 			// Receipt of any other non-copy message type constitutes an error that
 			// will abort the copy-in state as described above.
 			// https://www.postgresql.org/docs/current/protocol-flow.html#PROTOCOL-COPY
-			return ErrorCode(r.writer, NewErrUnimplementedMessageType(typed))
+			r.err = NewErrUnimplementedMessageType(typed)
+			return r.err
 		}
 	}
 }
